@@ -2,6 +2,7 @@
 
 Ops
   parse_numbers s=<string> <0|1>                         util.parse_numbers(string, is_date)
+  parse_numbers_sub s=<string> <0|1>                     same, run in a subprocess with a 5 s timeout (reply HANG)
   argv F=<valid inputs> C=<cfg~tok|tok;…> A=<tok|tok|…>    verif.driver.run(["verif"] + tokens)
   argvbad <kind> F=… C=… A=…                             same call; <kind> names the documented rejection
 
@@ -33,7 +34,7 @@ THEOREMS = {
         "C13_rejects_missing_value", "C13_rejects_range_length", "C13_rejects_nonpositive_T",
         "C13_rejects_quantile", "C13_rejects_unknown_axis", "C13_rejects_unknown_aggregator",
         "C13_rejects_bad_file", "C13_rejects_bad_clim", "C13_rejects_missing_config",
-        "C13_rejects_vector_partial"]],
+        "C13_rejects_vector"]],
     "Proofs.Lemmas.CalendarLite": ["VerifModel.ParseNumbers.CalendarLite.calendar_1900_2100"],
 }
 TRUSTED_BASE = [
@@ -57,8 +58,8 @@ ASSUMPTIONS = [
     "vector fields are decimal strings with at most 3 fractional digits (C13_range); outside that grid the 0.0001 "
     "end-point fudge of parse_numbers is visible (e.g. 0:1:0.99995) — documented by the code itself",
     "date ranges: d1 <= d2 both valid civil dates in 1900-2100, whole positive day steps; a reversed date range "
-    "returns the ascending range and a step 0 < s < 1 never terminates (both outside the documented grammar, mirrored "
-    "by the model, not generated)",
+    "returns the ascending range (outside the documented grammar, mirrored by the model); a date step 0 < s < 1 "
+    "never terminates (known finding date-fractional-step-hang, run in a subprocess with a 5 s timeout)",
     "order invariance is claimed for command lines in which no two option groups assign the same variable",
     "file names do not start with '-' and tokens are non-empty; config files contain no nested --config",
 ]
@@ -294,6 +295,8 @@ def gen_pn(tier, rng):
               "20130101:1.5:20130105", "20130105:-1:20130101", "20130105:-2:20121230", "20130301:-1:20130227",
               "20130101:0:20130105", "20130101:20130102:20130103:1", "2013010a", "20130101:", "20130101.5"]:
         yield "pn.dates.edge", "parse_numbers s=%s 1" % s
+    for s in ["20121231:0.25:20130101", "20130101:1.5:20130105", "20130101:2:20130105"]:
+        yield "pn.dates.sub", "parse_numbers_sub s=%s 1" % s
     for s in MALFORMED:
         if " " in s:
             continue
@@ -725,9 +728,49 @@ def run_cli(toks, configs):
     return describe(status, rec, out)
 
 
+SUB_TIMEOUT = 5
+_SUB_CODE = """
+import sys
+from fractions import Fraction
+import verif.util
+try:
+    r = verif.util.parse_numbers(sys.argv[1], sys.argv[2] == "1")
+except SystemExit as e:
+    sys.stdout = sys.__stdout__
+    print("@@ERR" if e.code not in (0, None) else "@@EXIT0")
+    raise SystemExit(0)
+except Exception as e:
+    print("@@EXC:" + type(e).__name__)
+    raise SystemExit(0)
+print("@@" + ",".join("%d/%d" % Fraction(repr(float(x))).as_integer_ratio() if not isinstance(x, int)
+                      else "%d/1" % x for x in r))
+"""
+
+
+def impl_sub(s, is_date):
+    """parse_numbers in a child process; a call that does not return within SUB_TIMEOUT seconds is HANG"""
+    import subprocess
+    from common import PY, REPO
+    env = dict(os.environ, PYTHONPATH=REPO + os.pathsep + os.environ.get("PYTHONPATH", ""))
+    try:
+        p = subprocess.run([PY, "-c", _SUB_CODE, s, "1" if is_date else "0"], capture_output=True, text=True,
+                           timeout=SUB_TIMEOUT, env=env)
+    except subprocess.TimeoutExpired:
+        return "HANG"
+    for line in p.stdout.splitlines():
+        if line.startswith("@@"):
+            r = line[2:]
+            if r.startswith("E"):
+                return r
+            return show_nums(Fraction(x) for x in r.split(",")) if r else "[]"
+    return "EXC:subprocess"
+
+
 def impl(op):
     import verif.util
     a = op.split(" ")
+    if a[0] == "parse_numbers_sub":
+        return impl_sub(a[1][2:], a[2] == "1")
     if a[0] == "parse_numbers":
         with contextlib.redirect_stdout(io.StringIO()):
             try:
@@ -770,7 +813,22 @@ def same(a, b):
     return True, None
 
 
+def outside_domain(op):
+    """inputs outside the domain of the theorems, on which the model merely mirrors a recorded defect
+    (known_findings.txt): only the property oracle speaks there, so that a repair of the defect is not
+    reported as a correspondence break (DESIGN 2.4, domain discipline)"""
+    a = op.split(" ")
+    if a[0] in ("parse_numbers", "parse_numbers_sub") and a[2] == "1":
+        s = a[1][2:]
+        if all(c in "-0123456789.:," for c in s):
+            w = doc_dates(s)
+            return w == "undefined" or (isinstance(w, list) and ":-" in s)
+    return a[0] == "argvbad" and a[1] == "malformed-scalar"
+
+
 def cmp(op, impl_out, model_out):
+    if outside_domain(op):
+        return True
     return same(impl_out, model_out)[0]
 
 
@@ -951,8 +1009,11 @@ def _shuffled(toks, seed):
 
 def judge(op, impl_out, spec_out):
     a = op.split(" ")
-    if a[0] == "parse_numbers":
+    if a[0] in ("parse_numbers", "parse_numbers_sub"):
         s, is_date = a[1][2:], a[2] == "1"
+        if impl_out == "HANG":
+            return ({"kind": "date-fractional-step-hang", "site": "parse_dates"},
+                    "parse_numbers(%r, is_date=%s) does not return within %d s" % (s, is_date, SUB_TIMEOUT))
         want = doc_dates(s) if is_date else doc_numbers(s)
         if any(c not in "-0123456789.:," for c in s):
             want = None
@@ -1051,7 +1112,7 @@ def nontrivial(op, out):
     if out.startswith("E") or out in ("help", "version"):
         return False
     if op.startswith("parse_numbers"):
-        return out.count(",") >= 1
+        return out.count(",") >= 1 and out != "HANG"
     _, toks, configs = parse_op(op)
     alltoks = toks + [t for c in configs.values() for t in c]
     return any(t in DOC and DOC[t][0] in ("data", "out") for t in alltoks)
